@@ -432,14 +432,15 @@ impl Check for C16 {
         // nothing in flattening may depend on the absolute size of the unit
         // (2^-24: the scaled tolerances, 6e-11 .. 6e-9, lie below the 1e-8 that the flattening
         // library itself accepts)
-        for exp in [-12i32, 10, -24] {
+        // (2^-72: tolerances around 2e-25 on geometry around 1e-21)
+        for exp in [-12i32, 10, -24, -72] {
             let k = (2.0f32).powi(exp);
             let sc = |p: &(f32, f32)| (p.0 * k, p.1 * k);
             let pts_s: Vec<(f32, f32)> = pts4.iter().map(sc).collect();
             let ctrl_s: Vec<(f32, f32)> = ctrl[..3].iter().map(sc).collect();
             let tols_s: Vec<f32> = [0.01f32, 0.1, 0.001].iter().map(|t| t * k).collect();
             set_unit(k as f64);
-            strings(run, &format!("4-point alphabet depth {}, unit 2^{}", if exp == -24 { 1 } else { 2 }, exp), &alphabet(&pts_s, &ctrl_s), if exp == -24 { 1 } else { 2 }, &tols_s);
+            strings(run, &format!("4-point alphabet depth {}, unit 2^{}", if exp <= -24 { 1 } else { 2 }, exp), &alphabet(&pts_s, &ctrl_s), if exp <= -24 { 1 } else { 2 }, &tols_s);
             set_unit(1.0);
         }
         if q {
